@@ -78,7 +78,18 @@ func (n *NilRules) maybeNilValue(v ssa.Value) string {
 		if maybeNilDeps[sc.String()] {
 			return "result of " + shortFn(sc)
 		}
+	case *ssa.TypeAssert:
+		if !x.CommaOk {
+			if d := suppliedPointer(x); d != "" {
+				return d
+			}
+		}
 	case *ssa.Extract:
+		if ta, ok := x.Tuple.(*ssa.TypeAssert); ok && x.Index == 0 {
+			if d := suppliedPointer(ta); d != "" {
+				return d
+			}
+		}
 		if c, ok := x.Tuple.(*ssa.Call); ok && x.Index == 0 {
 			if sc := c.Call.StaticCallee(); sc != nil {
 				if maybeNilDeps[sc.String()] {
@@ -94,12 +105,48 @@ func (n *NilRules) maybeNilValue(v ssa.Value) string {
 			return ""
 		}
 		if fa, ok := x.X.(*ssa.FieldAddr); ok {
+			// a pointer-typed field of a caller-supplied key object (its zero value has nil fields)
+			if _, isPtr := x.Type().Underlying().(*types.Pointer); isPtr {
+				base := fa.X
+				for {
+					// fields of embedded structs (rsa.PrivateKey embeds PublicKey)
+					inner, ok := base.(*ssa.FieldAddr)
+					if !ok {
+						break
+					}
+					base = inner.X
+				}
+				if ex, ok := base.(*ssa.Extract); ok {
+					if ta, ok := ex.Tuple.(*ssa.TypeAssert); ok && ex.Index == 0 && suppliedPointer(ta) != "" {
+						return "field " + fieldName(fa.X.Type(), fa.Field) + " of the caller-supplied key (nil in a zero-valued key)"
+					}
+				}
+				if ta, ok := base.(*ssa.TypeAssert); ok && suppliedPointer(ta) != "" {
+					return "field " + fieldName(fa.X.Type(), fa.Field) + " of the caller-supplied key (nil in a zero-valued key)"
+				}
+			}
 			return n.optField(fa.X.Type(), fa.Field, x.Type())
 		}
 	case *ssa.Field:
 		return n.optField(x.X.Type(), x.Field, x.Type())
 	}
 	return ""
+}
+
+// suppliedPointer: ta asserts a caller-supplied interface value (a parameter of interface type) to a pointer type: an
+// interface holding a nil pointer of that type passes the assertion.
+func suppliedPointer(ta *ssa.TypeAssert) string {
+	if _, isPtr := ta.AssertedType.Underlying().(*types.Pointer); !isPtr {
+		return ""
+	}
+	prm, ok := ta.X.(*ssa.Parameter)
+	if !ok {
+		return ""
+	}
+	if _, isIface := prm.Type().Underlying().(*types.Interface); !isIface {
+		return ""
+	}
+	return "caller-supplied " + prm.Name() + " asserted to " + types.TypeString(ta.AssertedType, func(p *types.Package) string { return p.Name() }) + " (a nil pointer of that type passes the assertion)"
 }
 
 func (n *NilRules) optField(owner types.Type, idx int, ft types.Type) string {
@@ -350,7 +397,11 @@ func (n *NilRules) Check(fns []*ssa.Function, ruleField, ruleSrc string) {
 					if ok {
 						n.R.OK(rule, cons, p.InstrPos(in), why)
 					} else {
-						n.R.Bad(rule, cons, p.InstrPos(in), "no nil check on this path: "+desc+" may be nil for a well-formed message that omits it")
+						why := "no nil check on this path: " + desc + " may be nil for a well-formed message that omits it"
+						if strings.Contains(desc, "caller-supplied") {
+							why = "no nil check on this path: " + desc + "; the dereference panics for such a key"
+						}
+						n.R.Bad(rule, cons, p.InstrPos(in), why)
 					}
 				}
 				// returning a maybe-nil lookup as the success value
